@@ -5,6 +5,7 @@ package sio
 var verifHarnesses = map[string]func(){
 	"VerifC14Sio":         VerifC14Sio,
 	"VerifC14Captain":     VerifC14Captain,
+	"VerifC14Targets":     VerifC14Targets,
 	"VerifC14Long":        VerifC14Long,
 	"VerifC15":            VerifC15,
 	"VerifC15Long":        VerifC15Long,
